@@ -310,6 +310,11 @@ def _sources(dtname):
     yield "transposed", base.clone().t()
     yield "sliced", torch.cat([base, base], 0)[::2]
     yield "expanded", base[:1].clone().expand(6, 8)
+    # size ladder: sources of more than 2^20 elements (in-place / block-wise fast paths)
+    i = torch.arange(1026 * 1025, dtype=torch.float64).reshape(1026, 1025)
+    big = (torch.cos(i * 0.31) * (1.0 + (i % 3) * 0.4)).to(base.dtype)
+    yield "big_contig", big
+    yield "big_transposed", big.clone().t()
 
 
 def _purity_task(task, out):
@@ -347,19 +352,50 @@ def _purity_task(task, out):
             for axis in (0, -1):
                 run(f"quantize_weight({qname},axis={axis},{lname})", [src], lambda: quantize_weight(src, qt, axis), {"kind": "purity", "fn": "quantize_weight", "layout": lname})
                 if qt.bits < 8:
-                    run(f"quantize_weight({qname},axis={axis},group=2,{lname})", [src], lambda: quantize_weight(src, qt, axis, 2), {"kind": "purity", "fn": "quantize_weight", "layout": lname})
+                    g = 2 if src.shape[0] == 6 else (27 if src.shape[axis] == 1026 else 25)
+                    run(f"quantize_weight({qname},axis={axis},group={g},{lname})", [src], lambda: quantize_weight(src, qt, axis, g), {"kind": "purity", "fn": "quantize_weight", "layout": lname})
                     run(f"MaxOptimizer({qname},axis={axis},{lname})", [src], lambda: MaxOptimizer()(src, qt.bits, axis), {"kind": "purity", "fn": "optimizer", "layout": lname})
             if qt.bits == 8:
                 for sv in (0.1, 0.0, 1.0):
                     sc = torch.tensor(sv, dtype=dt)
                     run(f"quantize_activation({qname},scale={sv},{lname})", [src, sc], lambda: quantize_activation(src, qt, sc), {"kind": "purity", "fn": "quantize_activation", "layout": lname, "scale": sv})
-                    sca = torch.tensor([0.1, sv, 0.3, 0.2, 0.5, 0.7], dtype=dt).reshape(6, 1)
+                    sca = torch.tensor([0.1, sv, 0.3, 0.2, 0.5, 0.7], dtype=dt).repeat(-(-src.shape[0] // 6))[: src.shape[0]].reshape(-1, 1)
                     from optimum.quanto.tensor.quantizers import SymmetricQuantizer
 
                     run(f"SymmetricQuantizer({qname},axis0 scale with {sv},{lname})", [src, sca], lambda: SymmetricQuantizer.apply(src, qt, 0, sca), {"kind": "purity", "fn": "SymmetricQuantizer", "layout": lname, "scale": sv})
                 for axis in (None, 0, -1):
                     run(f"absmax_scale({qname},axis={axis},{lname})", [src], lambda: absmax_scale(src, qt, axis), {"kind": "purity", "fn": "absmax_scale", "layout": lname})
                     run(f"AbsmaxOptimizer(axis={axis},{lname})", [src], lambda: AbsmaxOptimizer()(src, 8, axis), {"kind": "purity", "fn": "optimizer", "layout": lname})
+    # forward passes of quantized modules on large batches: the caller's batch and the module state stay untouched
+    for wname, aname in (("qint8", "qint8"), ("qint4", "qfloat8_e4m3fn"), ("qfloat8_e4m3fn", None)):
+        from optimum.quanto import Calibration
+
+        lin = torch.nn.Sequential(torch.nn.Linear(1025, 1030), torch.nn.ReLU(), torch.nn.Linear(1030, 3))
+        for k, p in enumerate(lin.parameters()):
+            models._fill(p, k)
+        lin = lin.to(dt).eval()
+        kw = {"weights": num.qt(wname)}
+        if aname:
+            kw["activations"] = num.qt(aname)
+        quantize(lin, **kw)
+        i = torch.arange(1026 * 1025, dtype=torch.float64).reshape(1026, 1025)
+        xb = (torch.cos(i * 0.17) * 2.0).to(dt)
+
+        def fwd(calib):
+            with torch.no_grad():
+                if calib:
+                    with Calibration():
+                        lin(xb)
+                else:
+                    lin(xb)
+
+        state = [p.data for p in lin.parameters()]
+        run(f"calibrate(big,{wname},{aname})", [xb] + state, lambda: fwd(True), {"kind": "purity", "fn": "forward_big"})
+        state = [p.data for p in lin.parameters()] + [b for b in lin.buffers()]
+        run(f"forward(big,{wname},{aname})", [xb] + state, lambda: fwd(False), {"kind": "purity", "fn": "forward_big"})
+        freeze(lin)
+        state = [b for b in lin.buffers()] + [m.weight._data if not hasattr(m.weight._data, "_data") else m.weight._data._data for _, m in models.qmodules(lin)]
+        run(f"forward_frozen(big,{wname},{aname})", [xb] + state, lambda: fwd(False), {"kind": "purity", "fn": "forward_big"})
     # quantize() / freeze(): the float parameters that are read must stay untouched
     for wname in models.WQ:
         for aname in (None, "qint8"):
